@@ -119,6 +119,7 @@ def _string_eq(it, st, args, ctx):
 COV_DECODES = z3.Function('cov_decodes', B256, z3.BoolSort())
 COV_WEIGHT = z3.Function('cov_weight', B256, z3.BitVecSort(128))
 COV_EXEC = z3.Function('cov_exec_true', B256, B256, B256, z3.BoolSort())  # (script id, tx id, env id) -> truthy
+COV_RAN = z3.Function('cov_ran', B256, B256, B256, z3.BoolSort())  # (script id, tx id, env id) -> returned a value
 
 
 def bytes_id(it, st, b):
@@ -144,6 +145,27 @@ def _cov_from_bytes(it, st, args, ctx):
     return EnumV('Result', z3.If(ok, bv(0, 8), bv(1, 8)), {'Ok': (Opaque('Covenant', (bid,)),), 'Err': (Opaque('DecodeError'),)})
 
 
+@summary(r'^(melvm::)?Covenant::to_ops$')
+def _cov_to_ops(it, st, args, ctx):
+    cov = deref(it, st, args[0])
+    return Opaque('CovOps', (cov.data[0],))
+
+
+@summary(r'^(melvm::)?Covenant::weight$')
+def _cov_weight_method(it, st, args, ctx):
+    cov = deref(it, st, args[0])
+    return COV_WEIGHT(cov.data[0])
+
+
+@summary(r'^(melvm::)?Covenant::hash$')
+def _cov_hash_method(it, st, args, ctx):
+    # decode . encode is the identity on decodable covenants (C12): the hash of the re-encoded covenant is the hash of
+    # the bytes it was decoded from
+    cov = deref(it, st, args[0])
+    from .shapes import address
+    return address(M.hash_apply(st, 'single:symbytes', [cov.data[0]]))
+
+
 @summary(r'^(melvm::)?Covenant::execute$')
 def _cov_execute(it, st, args, ctx):
     cov = deref(it, st, args[0])
@@ -154,7 +176,8 @@ def _cov_execute(it, st, args, ctx):
     st.events.append(('cov_execute', cov.data[0], tx, env))
     truthy = COV_EXEC(cov.data[0], txid, envid)
     # Some(value) whose into_bool() is `truthy`, or None: both folded into one Option<Value-as-bool>
-    ran = fresh('cov_ran', z3.BoolSort())
+    # whether execution returns a value at all: like the verdict, a function of (script, transaction, environment)
+    ran = COV_RAN(cov.data[0], txid, envid)
     return EnumV('Option', z3.If(ran, bv(1, 8), bv(0, 8)), {'Some': (Opaque('VmValue', (z3.And(truthy, ran),)),), 'None': ()})
 
 
